@@ -583,7 +583,7 @@ def cases(ctx):
     ctx.notes["exhaustive_depth"] = depth
     ctx.notes["exhaustive_histories"] = n
     rng = ctx.fresh_rng("C17rand")
-    nr = 400 if quick else 4000
+    nr = 1500 if quick else 6000
     for _ in range(nr):
         yield _random_history(rng, 40)
     ctx.notes["random_histories"] = nr
@@ -725,7 +725,11 @@ def oracle(c, ctx):
             o = R.lookup(op[1])
             R.reg = [(k_, o_) for k_, o_ in R.reg if k_ != op[1]]
             if R.cur == o:
-                R.cur = R.reg[0][1] if R.reg else None
+                # "removing the current one selects another or none": WHICH other one is not prescribed
+                if R.reg and any(o_ == after["cur"] for _k, o_ in R.reg):
+                    R.cur = after["cur"]
+                else:
+                    R.cur = R.reg[0][1] if R.reg else None
                 expect = [[["cur", R.cur if R.cur is not None else 0]]]
         elif k == "template":
             R.tmpl = dict(map(tuple, op[1]))
